@@ -139,11 +139,20 @@ class SphinxRenderer(DocutilsRenderer):
         path_id = _path_ids[0] if _path_ids else None
 
         potential_path: None | Path = None
+        is_file = False
         if self.sphinx_env.srcdir:  # not set in some test situations
-            _, path_str = self.sphinx_env.relfn2path(path_dest, self.sphinx_env.docname)
-            potential_path = Path(path_str)
+            try:
+                _, path_str = self.sphinx_env.relfn2path(
+                    path_dest, self.sphinx_env.docname
+                )
+                potential_path = Path(path_str)
+                is_file = potential_path.is_file()
+            except (OSError, ValueError):
+                # the destination cannot be probed as a file (e.g. the name is too long,
+                # contains a null byte, or permission is denied); treat it as not a file
+                is_file = False
 
-        if potential_path and potential_path.is_file():
+        if potential_path and is_file:
             docname = self.sphinx_env.path2doc(str(potential_path))
             if docname:
                 wrap_node = addnodes.pending_xref(
